@@ -4,6 +4,11 @@
 From Coq Require Import List String Ascii ZArith NArith Bool Lia.
 From LC Require Import Core.Residue Core.MiniPy Model.Phospho Gen.GMiniPy.
 Import ListNotations.
+
+Local Notation exec := (MiniPy.exec noprim 0).
+Local Notation exec_list := (MiniPy.exec_list noprim 0).
+Local Notation run_loop := (MiniPy.run_loop noprim 0).
+Local Notation eval := (MiniPy.eval noprim).
 Local Open Scope Z_scope.
 
 Definition sites_val (l : list nat) : value := VList (map (fun i => VInt (Z.of_nat i)) l).
@@ -11,7 +16,7 @@ Definition ps_env (s : list aa) (sites : list nat) (req tmp sv iv rv : value) : 
   [("self"%string, VNone); ("listOfPsites"%string, req); ("self.seq"%string, VStr (map aa_char s));
    ("self.phosphosites"%string, sites_val sites); ("tmp"%string, tmp); ("site"%string, sv); ("idx"%string, iv); ("res"%string, rv)].
 
-Ltac mp := cbn [exec eval lookup set String.eqb Ascii.eqb Bool.eqb truthy v_in v_not cmp_int bad2 is_bad elements ps_env
+Ltac mp := cbn [MiniPy.exec MiniPy.eval lookup set String.eqb Ascii.eqb Bool.eqb truthy v_in v_not cmp_int bad2 is_bad elements ps_env
                 list_ascii_of_string].
 
 Lemma ps_split : exists pre body rest,
@@ -104,7 +109,7 @@ Lemma ps_loop s req reqv tmp : forall sites sv iv rv,
     ONorm (ps_env s (psites (fold_left set_site req {| pseq := s; psites := sites |})) reqv tmp sv' iv' rv').
 Proof.
   intros sites sv iv rv.
-  pose proof (run_loop_rule "site"%string ps_body (fun r st => exists sv iv rv, r = ps_env s st reqv tmp sv iv rv) (ps_step s)
+  pose proof (@run_loop_rule noprim 0%nat _ "site"%string ps_body (fun r st => exists sv iv rv, r = ps_env s st reqv tmp sv iv rv) (ps_step s)
                 (fun v => exists z, v = VInt z)) as HL.
   assert (Hstep : forall r st v, (exists z, v = VInt z) -> (exists sv iv rv, r = ps_env s st reqv tmp sv iv rv) ->
             match ps_step s st v with
